@@ -157,7 +157,7 @@ def expected_line(key, full, unk, enabled):
             return full[key] if fam else unk["checksalt"]
         if kind in ("C", "S"):
             setting, pi = f[2], int(f[3])
-            plen = [0, 2, 9, 35][pi]
+            plen = [0, 2, 9, 35, 3, 8][pi]
             fail = "NULL|22" if kind == "C" else "*0|22"
             if not fam:
                 return fail
